@@ -250,10 +250,11 @@ func AppendFloat(b []byte, f float64, prec int) []byte {
 
 	// exponent
 	if exp != 0 {
-		if exp == 1 {
+		// zeros can only replace e1 or e2 if the mantissa has no digits behind the dot
+		if exp == 1 && i <= dot {
 			b[i] = '0'
 			i++
-		} else if exp == 2 {
+		} else if exp == 2 && i <= dot {
 			b[i] = '0'
 			b[i+1] = '0'
 			i += 2
